@@ -450,6 +450,7 @@ func Execute(sc *Scenario, sched *simrt.Schedule) (out *Outcome) {
 		return Build(sc.Decl)
 	}()
 	w.Ticks, w.TickBudget = 0, 1<<40
+	w.WallDeadline = time.Now().Add(60 * time.Second).UnixNano()
 	ctx.b = b
 	// keep the last few hundred declarations reachable, as several live parsers in
 	// one program would be: a fresh one then cannot sit at the address of the last
@@ -470,6 +471,7 @@ func Execute(sc *Scenario, sched *simrt.Schedule) (out *Outcome) {
 			ctx.counts = map[string]int{}
 			w.Exited = false
 			w.Ticks, w.TickBudget = 0, 1<<40
+			w.WallDeadline = time.Now().Add(60 * time.Second).UnixNano() // (the deadline of the previous operation is over)
 			b = Build(sc.Decl)
 			ctx.b = b
 			if b.Err != nil {
@@ -501,6 +503,7 @@ func Execute(sc *Scenario, sched *simrt.Schedule) (out *Outcome) {
 			op = &cp
 		}
 		runOp(w, b, op, &res)
+		w.WallDeadline = 0 // (the harness's own walks over the parser below also tick)
 		opsExecuted++
 		for _, h := range ctx.held {
 			for i := range h.snap {
